@@ -1,0 +1,14 @@
+//go:build verif
+
+package webdav
+
+// VerifC15Values returns, for the verification harness in /verif (build tag
+// "verif" only), constructors of empty values of this package's unexported
+// XML structures, by type name. It adds no behaviour.
+func VerifC15Values() map[string]func() interface{} {
+	return map[string]func() interface{}{
+		"principalAlternateURISet": func() interface{} { return &principalAlternateURISet{} },
+		"principalURL":             func() interface{} { return &principalURL{} },
+		"groupMembership":          func() interface{} { return &groupMembership{} },
+	}
+}
